@@ -119,10 +119,10 @@ def oracle_ops(toks, out):
                 hot, cold = parse_dump(d)
                 for key, h in cold.items():
                     if hot_type(*key) and hot.get(key) != h:
-                        bad.append(("after an inner call the cold store holds %s %d but the hot store does not hold the same bytes" % (FT[key[0]], key[1]), None))
+                        bad.append(("after an inner call the cold store holds a %s file but the hot store does not hold the same bytes" % FT[key[0]], None))
                 for key in hot:
                     if key[0] == 4 and not kind_of(key[1]):
-                        bad.append(("data pack %d is in the hot store" % key[1], None))
+                        bad.append(("a data pack is in the hot store", None))
         elif k == 2:
             key = (op[1], op[2])
             if key in cold and key[0] != 0:
@@ -243,27 +243,38 @@ def run(ctx):
 def gen_e2e(rng, long):
     seed = rng.randint(1, 2 ** 31)
     rejects = 1 if rng.random() < 0.85 else 0
-    steps = [[0, rng.randint(0, 3)]]
-    n = rng.randint(3, 12 if long else 8)
-    for _ in range(n):
-        r = rng.random()
-        if r < 0.3: steps.append([0, rng.randint(0, 5)])
-        elif r < 0.45: steps.append([1, rng.randint(0, 7)])
-        elif r < 0.62: steps.append([2, rng.randint(0, 1)])
-        elif r < 0.72: steps.append([3, rng.choice([0, 1, 3, 5, 9])])
-        elif r < 0.8: steps.append([4])
-        elif r < 0.92: steps.append([5])
-        elif r < 0.97: steps.append([6])
-        else: steps.append([7])
-    if rng.random() < 0.7:   # make sure repacking happens: forget an old snapshot, prune, restore
-        steps += [[1, 0], [2, rng.randint(0, 1)], [5]]
-    dmg_p = rng.choice([0, 200, 500, 1000])
+    shape = rng.random()
+    if shape < 0.25:
+        # a tree pack that prune only MARKED for deletion (index section packs_to_delete) stays in both stores
+        a, b = rng.sample(range(6), 2)
+        steps = [[0, a], [0, b], [1, 0], [2, 2]]
+        for _ in range(rng.randint(0, 3)):
+            steps.append(rng.choice([[4], [5], [0, rng.randint(0, 5)], [3, rng.choice([1, 5])]]))
+    else:
+        steps = [[0, rng.randint(0, 3)]]
+        n = rng.randint(3, 12 if long else 8)
+        for _ in range(n):
+            r = rng.random()
+            if r < 0.3: steps.append([0, rng.randint(0, 5)])
+            elif r < 0.45: steps.append([1, rng.randint(0, 7)])
+            elif r < 0.62: steps.append([2, rng.choice([0, 0, 1, 1, 2])])
+            elif r < 0.72: steps.append([3, rng.choice([0, 1, 3, 5, 9])])
+            elif r < 0.8: steps.append([4])
+            elif r < 0.92: steps.append([5])
+            elif r < 0.97: steps.append([6])
+            else: steps.append([7])
+        if rng.random() < 0.7:   # make sure repacking happens: forget an old snapshot, prune, restore
+            steps += [[1, 0], [2, rng.choice([0, 1, 2])], [5]]
+    dmg_p = rng.choice([0, 200, 500, 1000, 1000])
     dmg_cfg = 1 if rng.random() < 0.4 else 0
     trunc = 1 if rng.random() < 0.5 else 0
     fail_at = rng.randint(4, 70) if rng.random() < 0.3 else 0
+    # how the cold store is warmed up: 0 its own warm_up call, 1 by access (RepositoryOptions::warm_up),
+    # 2 by command (RepositoryOptions::warm_up_command)
+    wmode = rng.choice([0, 1, 1, 2]) if rejects else 0
     toks = [seed, rejects, len(steps)]
     for s in steps: toks += s
-    toks += [dmg_p, dmg_cfg, trunc, fail_at]
+    toks += [dmg_p, dmg_cfg, trunc, fail_at, wmode]
     return " ".join(map(str, toks))
 
 
@@ -344,7 +355,13 @@ def e2e_stage(ctx, impl, model, cov):
     for line, d in zip(cases, parsed):
         if d is None: continue
         t = [int(x) for x in line.split()]
-        fail_at = t[-1]; trunc = t[-2]; rejects = t[1]
+        nst = t[2]; p = 3
+        for _ in range(nst): p += 2 if t[p] <= 3 else 1
+        trunc, fail_at = t[p + 2], t[p + 3]
+        wmode = t[p + 4] if len(t) > p + 4 else 0
+        rejects = t[1]
+        hist["warm_up_mode_%d" % wmode] = hist.get("warm_up_mode_%d" % wmode, 0) + (1 if rejects else 0)
+        if any(st["step"] == [2, 2] for st in d["steps"]): hist["histories_with_mark_only_prune"] = hist.get("histories_with_mark_only_prune", 0) + 1
         case = {"line": line}
         faulted = fail_at and fail_at <= d["hist_len"]
         hist["with_fault"] += 1 if faulted else 0
@@ -384,7 +401,9 @@ def e2e_stage(ctx, impl, model, cov):
             elif nm == "restore" and s["hc"] not in ("ok same=true", "ok none"):
                 viol.append(("restore from the hot/cold repository differs from the source", case, {"step_index": si, "step": s}, None))
         if not faulted: hist["histories_compared_with_single_store"] += 1
-        if rejects and (d["unwarmed_reads_history"] or d["unwarmed_reads_repair"]):
+        # wmode 1 warms up BY a rejected access, so rejected reads are the mechanism there; the oracle for it is
+        # that every command succeeds (results equal to the single store, repair restores the hot store)
+        if rejects and wmode != 1 and (d["unwarmed_reads_history"] or d["unwarmed_reads_repair"]):
             viol.append(("a command read a cold file without warming it up first (the cold store rejected %d reads)" % (d["unwarmed_reads_history"] + d["unwarmed_reads_repair"]), case, d["steps"], None))
         if model:
             h, full = lo[k], lo[k + 1]; rmodel = ro[k // 2]; k += 2
@@ -399,16 +418,26 @@ def e2e_stage(ctx, impl, model, cov):
             chk_ok = d["repair"] == "ok clean" or (faulted and d["repair"].startswith("ok errors"))
             # packs of an aborted command that no index names cannot be recognised as tree packs by
             # repair_hotcold_packs (hypothesis tp = kind of repair_restores_hot); only possible after a fault
-            orphans = sorted(set(d["tp_flags"]) - set(d["tp_index"]))
+            # tree packs the index files name (any section), read by the harness itself from the index files
+            named = sorted({i for (sec, i, tree) in d["index_entries"] if tree})
+            marked = sorted({i for (sec, i, tree) in d["index_entries"] if tree and sec == 1})
+            if marked: hist["repairs_with_marked_tree_packs"] = hist.get("repairs_with_marked_tree_packs", 0) + 1
+            if d["index_read"] and sorted(d["tp_index"]) != named:
+                viol.append(("get_tree_packs (the packs repair_hotcold_packs treats as relevant) differs from the tree packs the index files name in `packs` and `packs_to_delete`: a tree pack listed by the cold store (e.g. one that prune only marked for deletion) is not recreated in the hot store",
+                             case, {"get_tree_packs": sorted(d["tp_index"]), "tree_packs_named_by_index_files": named, "of_which_marked_for_deletion": marked,
+                                    **{k2: d[k2] for k2 in ("index_entries", "state_before_repair", "state_after_repair")}}, None))
+            orphans = sorted(set(d["tp_flags"]) - set(named))
             if orphans: hist["faulted_cases_with_unindexed_tree_packs"] = hist.get("faulted_cases_with_unindexed_tree_packs", 0) + 1
             final_ok = "final=1" in full or (faulted and orphans)
-            if not faulted and set(d["tp_flags"]) != set(d["tp_index"]):
-                mism.append((line, "tree packs by cacheable flag %s" % d["tp_flags"], "tree packs named by the index %s" % d["tp_index"]))
+            if not faulted and d["index_read"] and set(d["tp_flags"]) - set(named):
+                mism.append((line, "tree packs (cacheable flag) held by cold %s" % d["tp_flags"], "tree packs named by the index files %s" % named))
             rep_ok = chk_ok and not d["cold_changed"] and final_ok
             if not rep_ok:
                 sig = SIG_REPAIR_MISMATCH if (d["truncated"] and d["cold_changed"]) else None
+                wm = ["", " [cold store rejecting un-warmed reads of every file type, warm-up by access: RepositoryOptions::warm_up(true)]",
+                      " [cold store rejecting un-warmed reads of every file type, warm-up by command: RepositoryOptions::warm_up_command]"][wmode if rejects else 0]
                 what = ("repair hotcold copies an incomplete hot file over the intact cold file" if sig else
-                        "after removing hot files, repair hotcold does not restore a complete hot store (repair: %s, cold files changed: %s, inv_b: %s)" % (d["repair"][:80], d["cold_changed"], full.split()[-1]))
+                        "after removing hot files, open_only_cold + init_hot + repair hotcold (+ check) does not restore a complete hot store%s (repair: %s, cold files changed: %s, inv_b: %s)" % (wm, d["repair"][:80], d["cold_changed"], full.split()[-1]))
                 viol.append((what, case, {k2: d[k2] for k2 in ("repair", "cold_changed", "state_before_repair", "state_after_repair", "truncated", "removed_hot")}, sig))
             if rmodel != d["state_after_repair"]:
                 mism.append((line, d["state_after_repair"], rmodel))
